@@ -2,6 +2,7 @@ package vh
 
 import (
 	"fmt"
+	"strings"
 
 	"vh/drv"
 )
@@ -40,6 +41,10 @@ func (c07) Run(c *Ctx, csAny any) Outcome {
 	defer LeaveCaseDir(dir)
 	r1 := runProg(cs.Cfg, cs.Prog)
 	if r1.Obs.Escaped != nil {
+		if strings.HasPrefix(fmt.Sprint(r1.Obs.Escaped), "flag rejected") {
+			out.Viol = violf("C07:seed-flag-rejected", "-rapid.seed=%d: %v", cs.Cfg.Seed, r1.Obs.Escaped)
+			return out
+		}
 		out.Viol = violf("C07:panic-escaped-check", "a panic escaped rapid.Check: %v", r1.Obs.Escaped)
 		return out
 	}
@@ -86,6 +91,10 @@ func (c07) Run(c *Ctx, csAny any) Outcome {
 	cfg3 := cs.Cfg
 	cfg3.Seed = r1.Rep.Seed
 	r3 := runProg(cfg3, cs.Prog)
+	if r3.Obs.Escaped != nil && strings.HasPrefix(fmt.Sprint(r3.Obs.Escaped), "flag rejected") {
+		out.Viol = violf("C07:seed-flag-rejected", "the printed seed %d is not accepted by -rapid.seed: %v", r1.Rep.Seed, r3.Obs.Escaped)
+		return out
+	}
 	if len(r3.X.Log) == 0 {
 		out.Viol = violf("C07:seed-does-not-reproduce", "-rapid.seed=%d: the property was not invoked", r1.Rep.Seed)
 		return out
